@@ -21,6 +21,20 @@ Definition b5_eqb (a b : bool * bool * bool * bool * bool) : bool :=
   let '(a1, a2, a3, a4, a5) := a in let '(b1, b2, b3, b4, b5) := b in
   Bool.eqb a1 b1 && Bool.eqb a2 b2 && Bool.eqb a3 b3 && Bool.eqb a4 b4 && Bool.eqb a5 b5.
 
-Definition check_case (c : case) : bool :=
+Definition check_one (c : case) : bool :=
   let '(_, _, _, o) := c in
   match model_out c with Some m => b5_eqb m o | None => false end.
+
+(* The property leaves open whether wait_for_condition looks at the stop flag before registering the condition (a
+   fast path) or only inside the wait: both transcriptions are verified (every theorem quantifies over all variants),
+   and a real schedule must be a path of one of them. *)
+Definition fast_of (v : variant) : option variant :=
+  match v with
+  | VGetSig => Some VGetSigF | VGetSigTimed => Some VGetSigTimedF | VGetSigReader => Some VGetSigReaderF
+  | VGetSigTimedReader => Some VGetSigTimedReaderF | VGetSigPoll => Some VGetSigPollF
+  | _ => None
+  end.
+
+Definition check_case (c : case) : bool :=
+  let '(v, env, tr, o) := c in
+  check_one c || match fast_of v with Some v' => check_one (v', env, tr, o) | None => false end.
